@@ -39,6 +39,7 @@ PIN = {
 def run(index, rep, db=None):
     rep.guard(inputs_only, index, rep)
     rep.guard(read, index, rep)
+    rep.guard(feed_objective_months, index, rep)
     db = db or rep.guard(build_all, index)
     if db is None:
         return None
@@ -100,6 +101,69 @@ def obj(index, db, rep):
     rep.check(ok, rule, "objective-loop-range", "the max-min constraints are not added for every month 0..NMONTHS-1",
               loc=loc(OPT, fn))
     rep.require_min(rule, 7)
+
+
+def feed_objective_months(index, rep):
+    rule = "C02.OBJ"
+    # the feed round's total: every month of the horizon is added up - each range iterated by the objective routine and the helpers it calls
+    # (loop or comprehension) is range(NMONTHS): self.NMONTHS itself, or a parameter every caller in the class binds to it
+    from .core import bind_args
+    ocls = index.methods(OPT, "Optimizer")
+    entry = ocls.get("add_maximize_sum_total_feed_used_by_animals")
+    if entry is None:
+        raise AnalysisError("Optimizer.add_maximize_sum_total_feed_used_by_animals missing")
+
+    def full_horizon(e, f_, depth=0):
+        t = norm_src(e)
+        if t == "self.NMONTHS":
+            return True
+        if isinstance(e, ast.Name) and e.id in [a.arg for a in f_.args.args] and depth < 3:
+            sites = [(g_, c) for g_ in ocls.values() for c in ast.walk(g_) if isinstance(c, ast.Call) and dotted(c.func) == "self." + f_.name]
+            return bool(sites) and all(e.id in bind_args(c, f_) and full_horizon(bind_args(c, f_)[e.id], g_, depth + 1) for g_, c in sites)
+        if isinstance(e, ast.Name):
+            defs_ = [s_.value for s_ in walk_no_nested(f_) if isinstance(s_, ast.Assign) and any(isinstance(t_, ast.Name) and t_.id == e.id for t_ in s_.targets)]
+            return len(defs_) == 1 and full_horizon(defs_[0], f_, depth + 1)
+        return False
+
+    todo, seen_f, bad_r, n_r = [entry], set(), [], 0
+    while todo:
+        f_ = todo.pop()
+        if f_.name in seen_f:
+            continue
+        seen_f.add(f_.name)
+        for n_ in ast.walk(f_):
+            its = []
+            if isinstance(n_, ast.For):
+                its.append(n_.iter)
+            if isinstance(n_, ast.comprehension):
+                its.append(n_.iter)
+            for it_ in its:
+                if isinstance(it_, ast.Name):
+                    defs_i = [s_.value for s_ in walk_no_nested(f_) if isinstance(s_, ast.Assign) and any(isinstance(t_, ast.Name) and t_.id == it_.id for t_ in s_.targets)]
+                    if len(defs_i) == 1:
+                        it_ = defs_i[0]
+                if isinstance(it_, ast.Call) and (dotted(it_.func) or "").startswith("self.") and dotted(it_.func)[5:] in ocls:
+                    # the months come from a helper: what it returns must be the full range
+                    h_ = ocls[dotted(it_.func)[5:]]
+                    rv = [r_.value for r_ in walk_no_nested(h_) if isinstance(r_, ast.Return) and r_.value is not None]
+                    n_r += 1
+                    okh = bool(rv) and all(isinstance(v_, ast.Call) and dotted(v_.func) == "range" and (
+                        (len(v_.args) == 1 and full_horizon(v_.args[0], h_)) or (len(v_.args) == 2 and norm_src(v_.args[0]) == "0" and full_horizon(v_.args[1], h_)))
+                        for v_ in rv)
+                    if not okh:
+                        bad_r.append(f"{f_.name}: months from {h_.name}() = {'; '.join(norm_src(v_)[:70] for v_ in rv)}")
+                if isinstance(it_, ast.Call) and dotted(it_.func) == "range":
+                    n_r += 1
+                    args_ = list(it_.args)
+                    okr = (len(args_) == 1 and full_horizon(args_[0], f_)) or (len(args_) == 2 and norm_src(args_[0]) == "0" and full_horizon(args_[1], f_))
+                    if not okr:
+                        bad_r.append(f"{f_.name}: {norm_src(it_)}")
+            if isinstance(n_, ast.Call) and (dotted(n_.func) or "").startswith("self.") and dotted(n_.func)[5:] in ocls and len(seen_f) < 8 \
+                    and dotted(n_.func)[5:] in ("get_nonhuman_consumption_sum",) + tuple(k_ for k_ in ocls if k_.startswith("get_") and "sum" in k_):
+                todo.append(ocls[dotted(n_.func)[5:]])
+    rep.check(n_r >= 1 and not bad_r, rule, "feed-objective:every-month",
+              "the feed round's objective total does not run over every month of the horizon (" + "; ".join(bad_r[:3]) + "): feed or biofuel of the "
+              "months left out does not count, so the reported total is below the true optimum", loc=loc(OPT, entry))
 
 
 def consumption_sum(db, rep):
